@@ -55,7 +55,7 @@ class MigWorld(World):
         p = self.legacy_path(self.cur_profile)
         seams.assert_in_scratch(p)
         if not os.path.exists(p):
-            raise HarnessError("legacy file not where expected: %s" % p)
+            raise Violation("bucket_missing", "the legacy store of profile testing=%s did not use its documented default file %s: whatever it holds cannot be found by the migration" % (self.cur_profile, os.path.basename(p)), {"op": "first_start"})
         self.legacy_hash[self.cur_profile] = _sha(p)
 
     def open(self):
@@ -89,6 +89,25 @@ class MigWorld(World):
             self.new_dump = self.dump()
         return out
 
+    def op_first_start_other(self, s):
+        """The same process now also starts the new store of the OTHER profile (a tool that migrates both)."""
+        other = not self.profile
+        if self.phase != "new" or other not in self.expected or self.ds is None:
+            return {"skipped": "no other-profile legacy store"}
+        main_dump = self.new_dump
+        st = getattr(self.ds, "storage_strategy", None)
+        c = getattr(st, "conn", None)
+        if c is not None:
+            st.commit()
+            c.close()  # note: no process boundary -- process-global state is deliberately NOT reset
+        self.ds = None
+        self.profile = other
+        out = self._call(self.open_new)
+        if out["exc"] is None:
+            self.new_dump = self.dump()
+        self.probes["both_profiles_migrated_in_one_process"] += 1
+        return out
+
     def op_restart_new(self, s):
         if self.phase != "new" or self.ds is None:
             return {"skipped": "no new store"}
@@ -104,7 +123,23 @@ class MigWorld(World):
 
     def close(self, clean=True):
         super().close(clean=clean and self.phase == "new")
+        end_of_process()
         seams.set_home(os.path.join(seams.SCRATCH_ROOT, "home"))
+
+
+def end_of_process():
+    """All simulated processes of this run are over: the process-global peewee handle the migration left
+    open (the library never closes it) must not leak into the next run's simulated processes."""
+    try:
+        from aw_datastore.storages import peewee as pw
+
+        db = getattr(pw, "_db", None)
+        if db is not None:
+            if not db.is_closed():
+                db.close()
+            db.init(None)
+    except Exception:
+        pass
 
 
 def _sha(p):
@@ -125,7 +160,7 @@ class C14(Check):
         "under the same bucket ids; then first start and a restart of the default SqliteStorage in the same fake home; "
         "non-trivial = legacy store held >=1 bucket with >=1 event; distinct = (profile, op-kind sequence, events per bucket)"
     )
-    expected_probes = ["legacy_events_migrated", "legacy_bucket_with_data", "legacy_bucket_name_omitted", "distractor_profile_present", "legacy_exit_dirty", "id_holes", "profile_testing", "profile_normal", "unicode_bucket_id", "restart_new_checked", "legacy_bucket_over_1000_events", "legacy_negative_duration", "new_store_exit_without_shutdown", "bucket_ids_differ_in_case"]
+    expected_probes = ["legacy_events_migrated", "legacy_bucket_with_data", "legacy_bucket_name_omitted", "distractor_profile_present", "legacy_exit_dirty", "id_holes", "profile_testing", "profile_normal", "unicode_bucket_id", "restart_new_checked", "legacy_bucket_over_1000_events", "legacy_negative_duration", "new_store_exit_without_shutdown", "bucket_ids_differ_in_case", "both_profiles_migrated_in_one_process"]
     assumptions = ["the data directory is found through XDG_DATA_HOME (platformdirs); the harness asserts every database path lies inside the run's scratch home"]
     real_components = ["PeeweeStorage (legacy store at default path)", "SqliteStorage (new store at default path)", "aw_datastore.migration", "aw_core.dirs / platformdirs", "SQLite engine", "peewee ORM"]
     stub_components = ["home directory (XDG_* in scratch)", "loggers", "the legacy client (generated history)"]
@@ -174,6 +209,8 @@ class C14(Check):
         steps.append({"op": "first_start", "dirty": r.random() < 0.3})
         # the library has no shutdown call: a process that migrated, served reads and exited without ceremony
         # is the ordinary lifecycle, so half of the restarts abandon the connection instead of flushing it
+        if any(x["op"] == "switch_profile" for x in steps) and r.random() < 0.5:
+            steps.append({"op": "first_start_other"})
         steps.append({"op": "restart_new", "dirty": r.random() < 0.5})
         return {"backend": "peewee-to-sqlite", "profile": profile, "steps": steps, "lat": lat}
 
@@ -228,7 +265,7 @@ class C14(Check):
 
     def after(self, world, step, out, i):
         op = step["op"]
-        if op in ("first_start", "restart_new"):
+        if op in ("first_start", "restart_new", "first_start_other"):
             if out.get("exc") is not None:
                 raise Violation("events_lost", "%s of the new store raised %r" % (op, out["exc"]), {"op": op})
             self._compare(world, op)
